@@ -67,6 +67,7 @@ Definition gres_eqb (a b : gres) : bool :=
   match a, b with
   | GErr, GErr => true
   | GPanic, GPanic => true
+  | GOther a, GOther b => a =? b
   | GOk i1 r1, GOk i2 r2 => list_eqb identity_eqb i1 i2 && res_eqb r1 r2
   | _, _ => false
   end.
@@ -108,7 +109,7 @@ Inductive icoth := ICo (known : bool) (pub : option nat) (priv : option L) (addr
                        (port : option Z) (desc url tlskey : L) (srv : list isvc).
 Inductive osid := OS (name suite : L) (pub : nat) (priv : option L).
 Inductive oid := OI (pub : nat) (priv : option L) (addr desc url : L) (srv : list osid).
-Inductive oresult := ORErr | ORPanic | OROk (ids : list oid) (roster : @ores L).
+Inductive oresult := ORErr | ORPanic | OROther (code : nat) | OROk (ids : list oid) (roster : @ores L).
 
 Inductive gcase18 :=
 | CGroup (kt : @ktab L) (reg : list (L * option L)) (servers : list iserver) (wsuite : L)
@@ -192,6 +193,7 @@ Definition dec_oresult (ks : list key) (r : oresult) : option gres :=
   match r with
   | ORErr => Some GErr
   | ORPanic => Some GPanic
+  | OROther n => Some (GOther n)
   | OROk ids ro =>
       match opt_all (map (dec_oid ks) ids), dec_res unlit ro with
       | Some l, Some x => Some (GOk l x)
@@ -287,7 +289,9 @@ Definition gagree18 (c : gcase18) : bool :=
     5 what is re-read after writing differs from what was read only in that an empty
       description has become the writer's default text
     6 a well-formed file is rejected (error or panic)
-    7 undecodable case / no observation (harness error) *)
+    7 undecodable case / no observation (harness error)
+    8 a well-formed file was accepted with identities, but nothing could be written
+      back and re-read *)
 
 Definition all_equal (l : list gres) : bool :=
   match l with
@@ -308,7 +312,15 @@ Definition roundtrip_clause (ps : list gres) (r : gres) : list nat :=
   else if existsb (fun p => gres_eqb (norm_desc r) (norm_desc p)) ps then [5]
   else [4].
 
-Definition is_ok (g : gres) : bool := match g with GOk _ _ => true | _ => false end.
+(* accepted: identities, and for a non-empty list a 16-byte roster id *)
+Definition is_ok (g : gres) : bool :=
+  match g with
+  | GOk [] _ => true
+  | GOk (_ :: _) (RId b) => List.length b =? 16
+  | _ => false
+  end.
+
+Definition has_ids (g : gres) : bool := match g with GOk (_ :: _) _ => true | _ => false end.
 
 Definition svc_wellformed (r : registry) (c : svc_conf) : bool :=
   match reg_suite r (sc_name c) with
@@ -331,7 +343,8 @@ Definition coth_wellformed (r : registry) (c : cothority) : bool :=
 
 Definition check_obs (wellformed : bool) (ps rs : list gres) : list nat :=
   dedup (parses_clauses ps ++ flat_map (roundtrip_clause ps) rs ++
-         clause 6 (negb wellformed || forallb is_ok ps)).
+         clause 6 (negb wellformed || forallb is_ok ps) ++
+         clause 8 (negb wellformed || negb (existsb has_ids ps) || nonempty rs)).
 
 Definition gcheck18 (c : gcase18) : list nat :=
   match c with
